@@ -4,6 +4,7 @@
 # (/tmp/trial/repo) and a copy of /verif's harness (/tmp/trial/verif, path dependency rewritten) are used.
 # SYNC=0 keeps the harness copy as it is (default: copy the current /verif working tree first).
 P="$1"; TIER="$2"; shift 2
+case "$P" in /*) ;; *) P="$PWD/$P";; esac
 T=/tmp/trial; mkdir -p $T
 exec 9>$T/lock; flock 9
 HEAD=$(git -C /repo rev-parse HEAD)
